@@ -46,7 +46,7 @@ if meta0.get("demo_path"):
         def __init__(self, p): self.p = p
         def group(self, i): return self.p
         def start(self): return 0
-    if meta0.get("demo_mode") == "append":
+    if meta0.get("demo_mode") in ("append", "paste-in-mod-tests"):
         m_append, m_place = _M(meta0["demo_path"]), None
     else:
         m_place, m_append = _M(meta0["demo_path"]), None
@@ -66,7 +66,11 @@ else:
 
 
 def place():
-    if placed[0] == "append":
+    if placed[0] == "append" and meta0.get("demo_mode") == "paste-in-mod-tests":
+        txt = open(placed[1]).read().rstrip()
+        assert txt.endswith("}")
+        open(placed[1], "w").write(txt[:-1] + "\n" + src + "\n}\n")     # inside the trailing `mod tests { .. }`
+    elif placed[0] == "append":
         open(placed[1], "a").write("\n" + src)
     else:
         os.makedirs(os.path.dirname(placed[1]), exist_ok=True)
@@ -97,7 +101,9 @@ res["demo_failure_excerpt"] = tail
 unplace()
 if placed[0] == "append":
     sh("git apply %s" % os.path.join(d, "patch.diff"))    # checkout of the appended file may have reverted a hunk
-rc, out = sh("cargo test -p %s --offline 2>&1 | grep -E '^test result|FAILED|error(\\[|:)' " % crate)
+existing = os.environ.get("EXISTING_CMD") or meta0.get("existing_cmd") or ("cargo test -p %s --offline" % crate)
+rc, out = sh("%s 2>&1 | grep -E '^test result|FAILED|error(\\[|:)' " % existing)
+res["existing_tests_cmd"] = existing
 passed = sum(int(x) for x in re.findall(r"(\d+) passed", out))
 failed = sum(int(x) for x in re.findall(r"(\d+) failed", out))
 res["existing_tests_with_change"] = "%d passed, %d failed%s" % (passed, failed, " (compile error)" if "error" in out and passed == 0 else "")
